@@ -207,6 +207,9 @@ def run(repo, rep):
     rep.clause("C19-a", "every 8-bit table has one entry per input code: range(256) for uint8 else range(-128, 128), exactly one append per iteration")
     rep.clause("C19-b", "every entry is rounded explicitly and clamped to the quantised range of the same loop before it is stored")
     rep.clause("C19-c", "fixed-point helpers do not depend on the width of the caller's integer type: growing multiplications are applied to widened operands (never inside the widening call); the exponential applies the seven gemmlowp barrel stages")
+    rep.clause("C19-i", "table bytes reach the output file: no truth test on a tensor address (a table at offset 0 is still copied into the flash image)")
+    rep.clause("C19-j", "the reader keeps zero points as the numpy integers of the file (constant folding relies on their promotion)")
+    rule_round7(repo, rep)
     rep.undecided("that table values equal the correctly rounded real function; bit-exact equality of the helpers with gemmlowp over their whole domain")
     go = repo.mod("tflite_graph_optimiser")
     lu = repo.mod("lut")
@@ -634,3 +637,26 @@ def rule_table_generators_in_double(repo, rep):
     if n < 5:
         raise AnalysisError(f"table generators: only {n} scale reads found")
     rep.floor("C19-d'", 5)
+
+
+def rule_round7(repo, rep):
+    """(i) the table bytes reach the output file: the copy of a lookup table into the flash image is not conditional on the table's
+    address being non-zero (address truth lint over the serialisation and allocation modules). (j) the reader keeps the zero points of
+    the file as numpy integers: constant folding (optimise_quantize) subtracts them from int8 / int16 values and relies on the
+    promotion to int64 - with a Python int the subtraction stays in the narrow type (NumPy >= 2) and wraps."""
+    from .shared import address_truth_lint
+
+    mods = ["npu_serialisation", "tensor_allocation", "live_range", "high_level_command_stream_generator", "high_level_command_to_npu_op", "tensor", "scheduler", "tflite_writer", "lut",
+            "register_command_stream_generator", "register_command_stream_util", "weight_compressor", "cascade_builder", "greedy_allocation", "hillclimb_allocation", "compiler_driver"]
+    n, _ = address_truth_lint(repo, rep, "C19-i", mods)
+    if n < 30:
+        raise AnalysisError(f"address reads: {n}")
+    tr = repo.mod("tflite_reader")
+    f = tr.func("TFLiteSubgraph.parse_tensor")
+    zs = [a for a in ast.walk(f) if isinstance(a, ast.Assign) and any(str(norm(t)).endswith("quantization.zero_point") for t in a.targets)]
+    if not zs:
+        raise AnalysisError("parse_tensor: zero point assignment not found")
+    for a in zs:
+        narrowed = [c for c in ast.walk(a.value) if isinstance(c, ast.Call) and call_name(c) in ("int", "float", "bool") or (isinstance(c, ast.Call) and isinstance(c.func, ast.Attribute) and c.func.attr in ("item", "tolist"))]
+        rep.check(not narrowed, "C19-j", "ethosu/vela/tflite_reader.py:TFLiteSubgraph.parse_tensor", f"`{str(norm(a))[:80]}` keeps the file's numpy integer",
+                  "the zero point becomes a Python int: `np.int8(value) - zero_point` in optimise_quantize stays int8 under NumPy >= 2 and wraps for |value - zp| > 127: folded QUANTIZE constants are wrong")
